@@ -11,6 +11,9 @@ pub struct Dependency {
 #[derive(Debug, Clone, Copy, PartialEq, Eq, Hash)]
 pub enum NodeKind {
     Source(Key),
+    /// A source that was read while absent (e.g. `get_singleton` returning `None`).
+    /// The reader must be re-executed once a source with that key is set.
+    AbsentSource(Key),
     Derived(DerivedNodeId),
 }
 
